@@ -408,6 +408,7 @@ pub fn run(tier: Tier) -> i32 {
             Err(e) => st.violation("harness", "app_build", 0, || e.clone(), &case),
             Ok(app) => {
                 let b = Bindings { app };
+                let verdict = guarded(|| {
                 let mut ok = true;
                 for (i, (s, d, l)) in net.edges.iter().enumerate() {
                     if b.graph_edge_origin(i).ok() != Some(*s) || b.graph_edge_destination(i).ok() != Some(*d) {
@@ -442,10 +443,12 @@ pub fn run(tier: Tier) -> i32 {
                         ok = false;
                     }
                 }
-                if ok {
-                    st.pass("bindings_accessors_agree_with_files");
-                } else {
-                    st.violation("bindings", "accessors_agree_with_files", net.size(), || name.clone(), &case);
+                ok
+                });
+                match verdict {
+                    Ok(true) => st.pass("bindings_accessors_agree_with_files"),
+                    Ok(false) => st.violation("bindings", "accessors_agree_with_files", net.size(), || name.clone(), &case),
+                    Err(p) => st.violation("bindings", "no_panic", net.size(), || p.clone(), &case),
                 }
             }
         }
@@ -455,7 +458,7 @@ pub fn run(tier: Tier) -> i32 {
         st,
         "state = one edge/vertex list (all G(3,m,2) multigraphs with self loops, stars and hubs with in/out degree 0..8, isolated vertices); transition = one load of files written in one variant (plain/gzip x 6 vertex column orders x extra columns (none / a name in second place / free text in first place beginning with '#', '-', a space or a quote, in both files) x each of the two counts given or scanned (4 modes) x file ending (no final newline / one / a blank line after the last row)) through Graph::from_files and DefaultGraphBuilder, compared accessor by accessor with the lists; per-edge tables of 1..40 rows; bindings accessors; non-trivial = at least two edges",
         true,
-        json!({"enumerated_family": spec.describe(), "max_degree": 8, "variants": 96}),
+        json!({"enumerated_family": spec.describe(), "max_degree": 8, "variants": 432}),
         vec!["vertex coordinates are written as the shortest decimal rendering of an f32, so the comparison is exact".into()],
     )
 }
